@@ -97,7 +97,7 @@ def sent_truth(prog: Program, interp: Interp, f: FuncInfo, init: Optional[Set[En
         if 'U' in k and (k & frozenset('NF')):
             flagged.append((s, 'the value may be the UNSET sentinel or a set-but-falsy value (None, 0, "", [], false): '
                                'truthiness cannot tell "absent" from "present but falsy"; an identity test against UNSET is required', k))
-        elif scalar_rule and 'N' in k and 'F' in k and static_scalar_optional(prog, f, s.expr):
+        elif scalar_rule and 'F' in k and static_scalar_optional(prog, f, s.expr):
             flagged.append((s, 'protocol scalar (id / code / message) tested by truthiness: 0 and "" are legitimate values '
                                'and are treated like None; `is None` / `is not None` is required', k))
     conds = sum(1 for n in res.cfg.nodes if n.kind == 'cond') + sum(
